@@ -77,6 +77,8 @@ type Ref struct {
 	Plat *ocispec.Platform `json:"plat,omitempty"`
 	// EmbAT puts the child's artifact type on the embedding descriptor.
 	EmbAT bool `json:"embAT,omitempty"`
+	// URLs: the embedding descriptor carries a urls field (foreign layers)
+	URLs bool `json:"urls,omitempty"`
 }
 
 // NodeSpec describes one node. Children always refer to earlier nodes, so a spec
@@ -203,6 +205,9 @@ func Build(specs []NodeSpec) *DAG {
 				}
 			}
 			e.Platform = r.Plat
+			if r.URLs {
+				e.URLs = []string{"https://layers.example.test/" + c.Desc.Digest.Encoded()}
+			}
 			if r.EmbAT {
 				e.ArtifactType = c.EffectiveArtifactType(d)
 			}
@@ -581,7 +586,11 @@ func Specs(t *rapid.T, o DAGOpts) []NodeSpec {
 						s.Layers = append(s.Layers, s.Layers[rapid.IntRange(0, len(s.Layers)-1).Draw(t, "dupIdx")])
 						continue
 					}
-					s.Layers = append(s.Layers, pickRef(blobs, "layer"))
+					lr := pickRef(blobs, "layer")
+					if IsForeignMT(specs[lr.N].MT) && rapid.Bool().Draw(t, "foreignURLs") {
+						lr.URLs = true
+					}
+					s.Layers = append(s.Layers, lr)
 				}
 			case KIndex, KDockerList:
 				if len(manifests) > 0 {
